@@ -23,22 +23,23 @@ Theorem C06_unlocked_race : exists sched ti tj r,
 Proof. exact unlocked_race. Qed.
 Print Assumptions C06_unlocked_race.
 
-(* a waiting requester receives exactly the first arrival with its system bytes, whatever else arrives in whatever order *)
+(* a waiting requester receives exactly the first arrival that can be its reply (its system bytes, no W-bit), whatever else arrives
+   in whatever order - also primaries of the peer that happen to carry the same system bytes (D49) *)
 Theorem C06_reply_to_requester : forall arrivals w k, answer_of w k = None -> find (fun e => fst e =? k) w <> None ->
-  answer_of (fst (route w arrivals)) k = option_map snd (find (fun a => fst a =? k) arrivals).
+  answer_of (fst (route w arrivals)) k = option_map (fun a => snd (fst a)) (find (is_reply_for k) arrivals).
 Proof. exact reply_to_requester. Qed.
 Print Assumptions C06_reply_to_requester.
 
 (* every other inbound message reaches the application exactly once, in arrival order *)
 Theorem C06_others_in_order : forall arrivals w,
-  snd (route w arrivals) = filter (fun a => match find (fun e => fst e =? fst a) w with None => true | Some _ => false end) arrivals.
+  snd (route w arrivals) = map fst (filter (for_app w) arrivals).
 Proof. intros arrivals w. apply others_in_order. auto. Qed.
 Print Assumptions C06_others_in_order.
 
 Example C06_example :
   let w := [(7, []); (9, []); (8, [])] in
-  let '(w1, app) := route w [(5, 50); (9, 90); (7, 70); (5, 51); (9, 91); (3, 30)] in
-  (answer_of w1 7, answer_of w1 8, answer_of w1 9, app) = (Some 70, None, Some 90, [(5, 50); (5, 51); (3, 30)]).
+  let '(w1, app) := route w [(5, 50, false); (9, 89, true); (9, 90, false); (7, 70, false); (5, 51, true); (9, 91, false); (8, 80, true); (3, 30, false)] in
+  (answer_of w1 7, answer_of w1 8, answer_of w1 9, app) = (Some 70, None, Some 90, [(5, 50); (9, 89); (5, 51); (8, 80); (3, 30)]).
 Proof. reflexivity. Qed.
 
 (* "handed to the application exactly once": the hand-over between the thread that queues received blocks and the dispatcher thread.
